@@ -905,7 +905,20 @@ def make_programs(ck, n, seed_tag):
 
 
 def run(ck):
-    ck.coq("Props.C09", clean=(ck.tier == "thorough"))
+    if ck.tier == "thorough":
+        # rebuild this property's part of the development from scratch (only our own objects:
+        # other checks may be building in the same tree)
+        import glob
+        with core.Lock("coq"):
+            for pat in ("Lazy/*.vo", "Lazy/*.glob", "Lazy/*.vos", "Lazy/*.vok", "Lazy/.*.aux",
+                        "Props/C09*.vo", "Props/C09*.glob", "Props/C09*.vos", "Props/C09*.vok", "Props/.C09*.aux"):
+                for f in glob.glob(os.path.join(core.COQ, pat)):
+                    os.unlink(f)
+    built = ck.coq("Props.C09")
+    if built and ck.tier == "thorough":
+        rc, out = core.sh(["timeout", "1500", "coqchk", "-silent", "-o", "-Q", core.COQ, "NV", "NV.Props.C09"],
+                          cwd=core.COQ, timeout=1600)
+        ck.obligation("coqchk NV.Props.C09", "coqchk", rc == 0, out[-1500:])
     ok = ck.harness(["nkeval"])
     ck.model_exe = ck.model("C09.v")
     if not ok or not ck.model_exe:
